@@ -14,7 +14,6 @@ import (
 	"fmt"
 	"os"
 	"runtime"
-	"runtime/pprof"
 	"time"
 
 	"verif/engine/ev"
@@ -42,18 +41,9 @@ func main() {
 	}
 
 	t0 := time.Now()
-	if pf := os.Getenv("C07_PROF"); pf != "" {
-		f, _ := os.Create(pf)
-		pprof.StartCPUProfile(f)
-		defer pprof.StopCPUProfile()
-	}
 	bindAll(r)
 	fmt.Fprintf(os.Stderr, "binding done in %.1fs\n", time.Since(t0).Seconds())
 
-	if os.Getenv("C07_DEBUG") == "bindonly" {
-		pprof.StopCPUProfile()
-		os.Exit(0)
-	}
 	runDigests(r)
 	fmt.Fprintf(os.Stderr, "digests done at %.1fs\n", time.Since(t0).Seconds())
 	runSigners(r)
